@@ -213,7 +213,10 @@ def run_case(case):
                 sig = "particles"
                 if set(rec["vars"]["tag"].tolist()) == set(ref["vars"]["tag"].tolist()) and len(rec["vars"]["pid"]) == len(ref["vars"]["pid"]):
                     sig = "pids:renumbered"
-                bad(sig + absent, f"record at step {step}: pids {rec['vars']['pid'].tolist()} (tags {rec['vars']['tag'].tolist()}) expected {ref['vars']['pid'].tolist()} (tags {ref['vars']['tag'].tolist()})", k)
+                # the known defect explains exactly ONE renumbering: particles released after the restart are shifted down by the number of
+                # identifiers the restart file does not show; anything else is a different violation and keeps its plain signature
+                explained = absent and rec["vars"]["pid"].tolist() == [q if q < pid_file else q - (pid_true - pid_file) for q in ref["vars"]["pid"].tolist()]
+                bad(sig + (absent if explained else ""), f"record at step {step}: pids {rec['vars']['pid'].tolist()} (tags {rec['vars']['tag'].tolist()}) expected {ref['vars']['pid'].tolist()} (tags {ref['vars']['tag'].tolist()})", k)
                 if sig != "pids:renumbered":
                     continue
             if max(ref["vars"]["pid"].tolist() + [-1]) > max(full["records"][(k + 1) * r - 1]["vars"]["pid"].tolist() + [-1]):
@@ -233,8 +236,11 @@ def run_case(case):
                         a, b = a + ra, b + rb
                     if j == len(names) - 1 and len(a) > len(b) and rs["records"][-1]["time"] == float(S0 + n * DT):
                         a = a[: len(b)]  # the warm run's extra record at `stop` finalises its last file later: more particles, same prefix
-                    if len(a) != len(b) or not np.all((np.abs(a - b) <= 1e-9 * np.maximum(1, np.abs(b))) | (np.isnan(a) & np.isnan(b))):
-                        bad(f"particle-variables:{v}" + absent, f"{name}: {v}={a.tolist()} expected {b.tolist()} (file {fb['name']} of the uninterrupted run)", k)
+                    eq = lambda x, y: len(x) == len(y) and bool(np.all((np.abs(x - y) <= 1e-9 * np.maximum(1, np.abs(y))) | (np.isnan(x) & np.isnan(y))))  # noqa: E731
+                    if not eq(a, b):
+                        # what the known defect alone produces: the entries of the identifiers missing from the restart file are dropped, the rest follows in order
+                        explained = absent and eq(a, np.concatenate([b[:pid_file], b[pid_true:]]))
+                        bad(f"particle-variables:{v}" + (absent if explained else ""), f"{name}: {v}={a.tolist()} expected {b.tolist()} (file {fb['name']} of the uninterrupted run)", k)
         if dead_before and released_after:
             nt += 1
     return util.result(evals=1 + nrestarts, nontrivial=nt, viol=viols, outcomes=[[nfiles, nrestarts]], states=nrestarts, transitions=nrestarts * n,
